@@ -35,8 +35,11 @@ def check(ctx):
     ctx.attempt(_lock_tract)
     ctx.attempt(_forwarding)
     ctx.attempt(_deadparam)
+    from .c08 import calltime_defaults     # keyword > config string > MasterConfig: the last link
+    ctx.attempt(calltime_defaults, rule='LOCK')
     ctx.attempt(_tract_creation)
     ctx.attempt(forward.check_all, module_suffixes=('config.config', 'plssdesc.plssdesc', 'plssdesc.plss_parse', 'tract.tract', 'tract.tract_parse', 'containers.containers'))
+    ctx.attempt(common.none_vs_false, [f for f in ctx.repo.funcs.values() if f.module.name.endswith('config.config')])
 
 
 def _cfg(ctx, a):
@@ -266,6 +269,20 @@ def lockdown(ctx, fi, only=None, rule='LOCK'):
             gs = [(t, pol) for _e, t, pol in literals(guards(x))]
             ok = (f"{p} is None", True) in gs or (p, False) in gs
             given = (f"{p} is None", False) in gs or (p, True) in gs
+            # a switch / number setting has meaningful falsy values (False, 0):
+            # only an identity test with None tells "not given"
+            try:
+                falsy_ok = set(ctx.fold.get_attr('config.config', 'Config', '_BOOL_TYPE_ATTRIBUTES')) | \
+                    set(ctx.fold.get_attr('config.config', 'Config', '_INT_TYPE_ATTRIBUTES'))
+            except Exception:
+                falsy_ok = set()
+            if p in falsy_ok and (p, False) in gs and (f"{p} is None", True) not in gs:
+                n += 1
+                ctx.violation(rule, f"{fi.qualname}: `{p} = self.{p}` only when the argument is not given",
+                              f"`if not {p}: {norm(x)}`: `{p}` is a switch / number setting, so an explicit {p}=False "
+                              f"(or 0) passed by the caller is taken for 'not given' and overridden by the configured value",
+                              key=f"{rule}|{fi.qualname}|fallback-guard|{p}", where=common.loc(fi, x))
+                continue
             import re as _re
             mentions_p = any(_re.search(rf"(?<![\w.]){_re.escape(p)}\b", t) for t, pol in gs)
             bad = not gs or given or not mentions_p
@@ -376,6 +393,7 @@ def _lock_tract(ctx):
                   f"Tract.parse: {p} is overridden by qq_depth (keyword, else attribute)",
                   detail_bad=f"{p} no longer takes qq_depth into account", key=f"LOCK|Tract.parse|{p}|qq_depth")
     qq_depth_precedence(ctx, fi)
+    ctx.attempt(keyword_wins_depth, fi)
     t = ' '.join(norm(s) for s in walk_local(fi.node) if isinstance(s, ast.stmt))
     ctx.shape('elif not use_min_max and self.qq_depth is not None' in t.replace('(', '').replace(')', ''),
               'LOCK', 'Tract.parse: self.qq_depth applies only when no depth keyword was given')
@@ -409,6 +427,66 @@ def qq_depth_precedence(ctx, fi):
                       key=f"LOCK|Tract.parse|use_min_max|{p}", where=common.loc(fi, sw[0]))
     else:
         ctx.undecided('LOCK', 'Tract.parse: depth keywords win over the configured qq_depth', 'fallback switch not recognised')
+
+
+def keyword_wins_depth(ctx, fi=None):
+    """Conditional constant propagation through the lock-down of the depth
+    settings in Tract.parse, for every combination of given / omitted
+    keywords and configured / unconfigured attributes: a depth keyword that
+    was given reaches TractParser unchanged (qq_depth overrides min and max)."""
+    from .. import ccp
+    fi = fi or ctx.repo.func('Tract.parse')
+    calls = [c for c in walk_local(fi.node) if isinstance(c, ast.Call) and dotted(c.func) == 'TractParser']
+    construct = 'Tract.parse: a given depth keyword reaches the parser whatever is configured'
+    if len(calls) != 1:
+        ctx.undecided('LOCK', construct, 'TractParser(...) call not recognised')
+        return
+    kw = {k.arg: k.value for k in calls[0].keywords if k.arg}
+    names = ('qq_depth_min', 'qq_depth_max', 'qq_depth')
+    if not all(n in kw for n in names):
+        ctx.undecided('LOCK', construct, 'depth keywords are not handed over by name')
+        return
+    stop = calls[0]
+    while stop is not None and not isinstance(stop, ast.stmt):
+        stop = stop._parent
+    n_cases = 0
+    S = ccp.Sym
+    import itertools
+    for gmin, gmax, gdep, cfgdep in itertools.product((False, True), repeat=4):
+        env = {p: None for p in fi.params()}
+        env['self'] = ccp.Obj(qq_depth_min=S('self.qq_depth_min'), qq_depth_max=S('self.qq_depth_max'),
+                              qq_depth=S('self.qq_depth') if cfgdep else None)
+        env['qq_depth_min'] = S('kw:qq_depth_min') if gmin else None
+        env['qq_depth_max'] = S('kw:qq_depth_max') if gmax else None
+        env['qq_depth'] = S('kw:qq_depth') if gdep else None
+        case = f"min {'given' if gmin else '-'}, max {'given' if gmax else '-'}, qq_depth {'given' if gdep else '-'}, " \
+               f"configured qq_depth {'set' if cfgdep else 'None'}"
+        try:
+            out = ccp.run_slice(fi.node, [norm(kw[n]) for n in names if isinstance(kw[n], ast.Name)], env, stop_at=stop)
+            got = {n: ccp.ev(kw[n], out) for n in names}
+        except ccp.Unsupported as e:
+            ctx.undecided('LOCK', f"{construct} [{case}]", f"not propagated ({e})")
+            continue
+        n_cases += 1
+        bad = []
+        if gdep:
+            for n in ('qq_depth_min', 'qq_depth_max'):
+                if got[n] != S('kw:qq_depth') and got['qq_depth'] != S('kw:qq_depth'):
+                    bad.append((n, got[n], 'kw:qq_depth'))
+        else:
+            if gmin and got['qq_depth_min'] != S('kw:qq_depth_min'):
+                bad.append(('qq_depth_min', got['qq_depth_min'], 'kw:qq_depth_min'))
+            if gmax and got['qq_depth_max'] != S('kw:qq_depth_max'):
+                bad.append(('qq_depth_max', got['qq_depth_max'], 'kw:qq_depth_max'))
+        if bad:
+            n_, g_, w_ = bad[0]
+            ctx.violation('LOCK', f"{construct} [{case}]",
+                          f"with {case}, TractParser receives {n_} = {g_} instead of the keyword ({w_}): the configured value "
+                          f"beats the keyword", key=f"LOCK|Tract.parse|keyword-wins|{n_}|{int(gmin)}{int(gmax)}{int(gdep)}{int(cfgdep)}",
+                          where=common.loc(fi, calls[0]))
+        else:
+            ctx.ok('LOCK', f"{construct} [{case}]", f"min={got['qq_depth_min']}, max={got['qq_depth_max']}")
+    ctx.floor('depth keyword cases propagated', n_cases, 8)
 
 
 def _forwarding(ctx):
